@@ -418,9 +418,11 @@ func (m *Decisions) AfterScan(ctx *h.ScanCtx) []h.Violation {
 	return out
 }
 
-// starveCertainty: sure = some pending pod is larger than every untainted node's whole allocatable
-// (it can be scheduled nowhere); maybe = some pending pod does not fit into the free space of any
-// single untainted node.
+// starveCertainty: sure = the largest pending pod by CPU exceeds the largest free CPU on any untainted
+// node, or likewise for memory (such a pod can be scheduled nowhere: the documented trigger
+// certainly applies); maybe = some pending pod fits no single untainted node entirely although it
+// would fit by CPU on one node and by memory on another (the documentation says "cannot currently
+// be scheduled", the trigger's heuristic looks at one resource at a time: either answer accepted).
 func starveCertainty(g *h.GroupView, d ref.Decision) (sure, maybe bool) {
 	if !g.Spec.Opts.ScaleOnStarve {
 		return false, false
@@ -429,11 +431,10 @@ func starveCertainty(g *h.GroupView, d ref.Decision) (sure, maybe bool) {
 		// the trigger is documented for groups that can still grow
 		return false, d.Starve
 	}
-	type free struct{ c, m, ac, am int64 }
+	type free struct{ c, m int64 }
 	var fs []free
 	for _, n := range g.U {
-		f := free{ac: n.Status.Allocatable.Cpu().MilliValue(), am: n.Status.Allocatable.Memory().Value()}
-		f.c, f.m = f.ac, f.am
+		f := free{c: n.Status.Allocatable.Cpu().MilliValue(), m: n.Status.Allocatable.Memory().Value()}
 		for _, p := range g.Pods {
 			if p.Spec.NodeName == n.Name {
 				c, mm := ref.PodRequest(p)
@@ -451,26 +452,17 @@ func starveCertainty(g *h.GroupView, d ref.Decision) (sure, maybe bool) {
 		if c == 0 && mm == 0 {
 			continue
 		}
-		fitsSome, fitsEmpty := false, false
+		fitsSome := false
 		for _, f := range fs {
 			if c <= f.c && mm <= f.m {
 				fitsSome = true
-			}
-			if c <= f.ac && mm <= f.am {
-				fitsEmpty = true
 			}
 		}
 		if !fitsSome {
 			maybe = true
 		}
-		if !fitsEmpty {
-			sure = true
-		}
 	}
-	if d.Starve {
-		maybe = true
-	}
-	return sure && d.Starve, maybe
+	return d.Starve, maybe || d.Starve
 }
 
 func maxAgePossible(g *h.GroupView, now time.Time) bool {
